@@ -42,7 +42,7 @@ def run(chk):
                 f.setdefault("composition models", []).append({"model": "random", "compositions": [0], "min value": [0.0], "max value": [1.0]})
         slot = cs.add_world(wj, model=False)        # native, default arguments (placeholder slot numbering)
         path = os.path.join(cs.dir, "w%d.wb" % slot)
-        mode = rng.choice(["null", "flag0", "dir", "dir", "dir-noflag"])
+        mode = rng.choice(["null", "flag0", "dir", "dir", "dir-noflag", "dir-prefix", "dir-prefix"])
         od = os.path.join(base, "o%d" % wi) + "/"
         os.makedirs(od)
         if mode == "null":
@@ -51,6 +51,9 @@ def run(chk):
             hd, dr = "0", "null"
         elif mode == "dir":
             hd, dr = "1", od
+        elif mode == "dir-prefix":
+            # the world concatenates the string and the file name: a path without a trailing slash is a file-name prefix
+            hd, dr = "1", od + "pre"
         else:
             hd, dr = "0", od
         i0 = cs.raw("nworld %d %s 0 null %d" % (slot, path, seed), "let () = out_str \"skip\"", {"kind": "create", "world": wj})
@@ -123,6 +126,14 @@ def run(chk):
                 d["files_in_working_dir"] = stray
                 viol.append(("create_world does not hand the full output directory path to the world "
                              "(declaration files expected in the directory, found %s; stray files %s)" % (present, stray[:4]), d))
+        elif mode == "dir-prefix":
+            chk.nontriv(("dir", od))
+            if present != sorted("pre" + x for x in DECL):
+                d = cs.describe(i1)
+                d["files_in_output_dir"] = present
+                d["files_in_working_dir"] = stray
+                viol.append(("create_world changes the output path on its way to the world (path without a trailing slash: the "
+                             "native World writes <path>world_builder_declarations.*; found %s)" % (present,), d))
         elif present:
             viol.append(("declaration files written although the output-directory flag is off", cs.describe(i1)))
     chk.sample({"create_world": cs.probe[dirs[0][2]], "answer": impl[dirs[0][2]]})
